@@ -271,7 +271,9 @@ fn apply(p: &mut Project, e: &Ed) -> String {
 }
 
 pub fn run_scenario(s: &Scenario, acc: &mut Acc, verbose: bool) {
-    for sched in 0..12u64 {
+    // PPGMON_SCHEDULES: fewer schedules per scenario (used by the Miri self-check, where one evaluation costs seconds)
+    let nsched: u64 = std::env::var("PPGMON_SCHEDULES").ok().and_then(|x| x.parse().ok()).unwrap_or(12);
+    for sched in 0..nsched {
         let mut cfg = ChainCfg::new(s.conv, Family::Random, 0);
         cfg.verbose = false;
         let mut p = build(s, sched);
